@@ -20,6 +20,12 @@ CLAIMED = {
             NOTE_STD, TECH_STD, "5/C05"),
     "C06": ("Coq theorems (props/C06.v, closed): for EVERY signature map, an envelope whose signed portion alone is well-formed delegating metadata of another type is never accepted; the type test ignores the signature map; an accepted envelope stays accepted when only its counting entries are kept (verify_signable, verify_delegation); acceptance depends only on the signed value and the set of counting entries. Tie: type-mismatched metadata under decorated signature maps must be rejected by the implementation; every envelope the implementation accepts in the C01/C03/C05 products is stripped with independent crypto and must still be accepted (all three verifiers); implementation accepts => model accepts.",
             NOTE_STD + " Envelopes in the layout {signatures, signed}; the strip theorem for verify_root is covered by the metamorphic run, not yet by a theorem.", TECH_STD + " + metamorphic stripping", "5/C06"),
+    "C13": ("Coq theorems (props/C13.v, closed): for ALL Python values of the universe in every argument position and every verification primitive, each checkformat_* validator and the serializer end in {TypeError, ValueError}; verify_signature / verify_gpg_signature in that plus InvalidSignature; verify_signable in {TypeError, ValueError, SignatureError}; verify_delegation and verify_root in the library hierarchy plus TypeError/ValueError -- never KeyError, AttributeError, OverflowError or AssertionError (struct.error only for OpenPGP headers >= 4 GiB, proved); the error map (too few signatures => SignatureError, undelegated role => UnknownRoleError, version or type-for-role mismatch => MetadataVerificationError) is proved; termination is by construction (total Gallina functions over finite containers). Tie: for every public validator and verifier, a valid call and every single mutation at every JSON path of every argument (43 substitute values, deletion, extra field, duplication): implementation exception class = model class, and an oracle for family membership.",
+            NOTE_STD + " The explicit Unmodelled outcome (dicts with non-str keys reaching json/sorted, float tokens outside the JSON grammar) is counted per run and excluded from the comparison. RecursionError/MemoryError are outside the model.", TECH_STD, "5/C13"),
+    "C14": ("Coq theorems (props/C14.v, closed): checkformat_delegating_metadata v = Ok <-> dm_ok v for ALL values, where dm_ok is a declarative schema written from the documentation (two-field envelope, every signature value raw- or OpenPGP-shaped, supported type, spec-version string, delegations = str -> {pubkeys: distinct 64-lower-hex keys, threshold: integer-valued >= 1} and nothing else, UTC expiration, version or timestamp, version for root, each well formed if present); the same for checkformat_delegation(s) and checkformat_natural_int; removing any required field, taking any field outside its grammar, a third envelope field or a malformed signature entry is rejected; the verifiers stay inside their error families on everything. Tie: accept<=>accept between model and implementation on valid documents (optional-field combinations x roles x signature maps) and every single mutation at every JSON path, ~500 boundary/random date strings and a month-end sweep, every mutation of a delegation; an independent Python schema checker (regex + datetime) is the oracle.",
+            NOTE_STD + " 'Integer' is the code's grammar int(x) == x and x >= 1 (True and 2.0 included; DESIGN N2). The UTC grammar is CPython's strptime regexes + datetime range checks as transcribed in Time.v.", TECH_STD, "5/C14"),
+    "C16": ("Coq theorems (props/C16.v, closed): for ALL argument tuples and clock reads both builders return or raise TypeError/ValueError; build_delegating_metadata returns iff its five argument checks pass and then returns exactly the arguments (defaults filled in) plus the specification version re-read from the source; whatever it returns for a supported type passes the checker once wrapped; build_root_metadata always delegates exactly root and key_mgr with the given lists and its result is well formed; defaulted timestamp/expiration are the formatted clock read and the clock read plus the expiry distance (365 days, re-read from the AST). Tie: implementation outcome = model outcome (value or exception class) on valid tuples x clock reads at calendar boundaries and every single mutation of every argument; oracle checks schema, verbatim fields, default expiry = timestamp + 365 d, and that threshold-signed built roots are accepted by verify_root as successors and then act as trusted roots.",
+            NOTE_STD + " Clock reads are inputs (datetime.utcnow patched in the worker), years 1..9998. The fmt_utc/strptime round trip ('expires strictly after') is validated by the correspondence and an Example, not yet a general theorem.", TECH_STD, "5/C16"),
     "C15": ("Machine-checked Coq theorems (props/C15.v, closed under the global context) state that each leaf validator of the model accepts exactly its grammar (64/128/40 lower-case hex; raw or OpenPGP entry shape), that decoding is injective on accepted keys, that accepted key lists have pairwise distinct key bytes and that predicate and raising forms agree, for ALL Python values of the modelled universe. The model is tied to /repo on every run: lengths are re-read from the AST (C15_lengths_frozen), and the model's executable definitions (extracted to OCaml, sampled again by vm_compute) are run against the implementation on an exhaustive small-scope product of strings/entries with accept<->accept as relation, next to an independent regex oracle.",
             "Trusted: Coq kernel, translator, extraction (ExtrOcamlBasic only) + driver, correspondence harness; CPython's bytes.fromhex/str.isalnum/str.lower are modelled (validated by the correspondence), not verified. Values outside the universe (objects overriding dunder methods) are not covered.",
             "Coq proof (unbounded, all inputs) + translator-checked constants + extracted-model/implementation correspondence", "5/C15"),
